@@ -2,6 +2,7 @@ import GqlVerif.Props.C07
 import GqlVerif.Proofs.C07Frontends
 import GqlVerif.Proofs.C07ExtensionsCodegen
 import GqlVerif.Proofs.C07Permutations
+import GqlVerif.Proofs.C07PermCodegen
 open GqlVerif.C07
 #print axioms wrapped_equal
 #print axioms absent_eq_null
@@ -31,3 +32,25 @@ open GqlVerif.C07
 #print axioms frontends_iso_perm
 #print axioms codegen_perm_eq_mapTypes
 #print axioms GqlVerif.C07.idxOf_bijection
+-- type-order permutations: generated modules equal up to the order of items and variants - the statement formerly only stated (Proofs/C07PermCodegen*.lean)
+#print axioms GqlVerif.C07P.codegen_iso_perm
+#print axioms GqlVerif.C07P.codegen_iso_perm_iff
+#print axioms GqlVerif.C07P.codegen_iso_perm_frontends
+#print axioms GqlVerif.C07P.codegen_iso_perm_wire
+#print axioms GqlVerif.C07P.codegen_perm_not_equal
+#print axioms GqlVerif.C07P.resolve_tiso
+#print axioms GqlVerif.C07P.codegen_tiso
+#print axioms GqlVerif.C07P.itemsPerm_iff_itemsEqv
+#print axioms GqlVerif.C07P.calc_rel
+#print axioms GqlVerif.C07P.allUsedTypes_tiso
+#print axioms GqlVerif.C07P.typeIso_mapTypes
+#print axioms GqlVerif.C07P.closed_toSchema
+#print axioms GqlVerif.C07P.itemsPerm_ser_eq
+#print axioms GqlVerif.C07P.itemsPerm_de_eq
+#print axioms GqlVerif.C07P.itemsPerm_roundtrip_eq
+#print axioms GqlVerif.C07P.de_every_json_false
+#print axioms GqlVerif.C07P.de_int_tag_differs
+#print axioms GqlVerif.C07P.envOK_names_needed
+#print axioms GqlVerif.C07P.envOK_variant_names_needed
+#print axioms GqlVerif.C07P.envOK_wires_needed
+#print axioms GqlVerif.C07P.envOK_other_needed
